@@ -1,6 +1,7 @@
 """C01 — digest tree of every envelope matches the specification (formula at every construction site)."""
 from ..lib import *
 from ..terms import TermBuilder
+from .. import codec
 
 EXPLANATION = (
     "Static rule checking over the resolved MIR of /repo. C01.1 census: every aggregate construction of an EnvelopeCase "
@@ -12,11 +13,11 @@ EXPLANATION = (
     "from_digests([digest(subject)] ++ map(digest, sorted assertions))); C01.3: DigestProvider for Envelope returns, per "
     "variant arm, that arm's own stored/declared digest and the match is exhaustive; C01.4: no mutation path (no projected "
     "assignment through Envelope/EnvelopeCase/Assertion, no Rc/Arc get_mut/make_mut/try_unwrap, no interior mutability in the "
-    "type tree, no &mut self method). Does not decide SHA-256, dCBOR serialisation or Digest::from_digests' concatenation.")
+    "type tree, no &mut self method); C01.5: every decoder accept value is a constructor call over the decoded children (node = constructor(decode(elements[0]), decode(elements[1..]))). Does not decide SHA-256, dCBOR serialisation or Digest::from_digests' concatenation.")
 TRUSTED = ['Digest::from_image = SHA-256 of its argument', 'Digest::from_digests hashes the concatenation of the slice in order',
            'CBOR::to_cbor_data is the dCBOR serialisation']
 ASSUMPTIONS = ['dependencies behave as their documented summaries']
-FLOORS = {'C01.1': 8, 'C01.2': 5, 'C01.3': 5, 'C01.4': 4}
+FLOORS = {'C01.1': 8, 'C01.2': 5, 'C01.3': 5, 'C01.4': 4, 'C01.5': 6}
 
 
 def comparator_table(ctx, F, closure_path):
@@ -252,6 +253,16 @@ def check(ctx):
     else:
         ctx.lost('C01.3', 'DigestProvider for Assertion')
 
+    # ---------------- C01.5 decoded envelopes are rebuilt through the constructors over the decoded children
+    codec.check_node_reader(ctx, 'C01.5')
+    dec = codec.decoder_table(ctx)
+    if dec is not None:
+        b = dec['body']
+        for bi, si, t, kind, tags, vs in dec['accepts']:
+            if vs is None:
+                ctx.fail('C01.5', ctx.site(b, bi, si), 'decoder accept value is not a (digest-computing) constructor call: %s' % fmt(t), key='C01.5|%s' % kind)
+            else:
+                ctx.ok('C01.5', ctx.site(b, bi, si), 'decoder %s -> constructor of %s (digest recomputed by C01.2 formula)' % (kind, sorted(vs)))
     # ---------------- C01.4 immutability
     check_immutability(ctx, 'C01.4')
 
